@@ -467,8 +467,9 @@ func runUniverse(r *vk.Run, cfg Config) {
 				}
 				obsMu.Unlock()
 			}
-			// the public read API of the manager is used by RPC handlers concurrently with the loops
-			sa, sf := agg.M.GetLastState(), full.M.GetLastState()
+			// (the observer reads only what the node's own activities and its helpers read concurrently: the atomic
+			// DA-included height, the store, the caches behind IsDAIncluded; not the state copy, which inside the node is
+			// touched by one goroutine only)
 			_, _ = agg.M.IsDAIncluded(ctx, dA+1)
 			_, _ = full.M.IsDAIncluded(ctx, dF+1)
 			// the submission watermarks are read first, the chain height afterwards: the height only grows, so a
@@ -484,7 +485,6 @@ func runUniverse(r *vk.Run, cfg Config) {
 				obsMu.Unlock()
 			}
 			r.Hit("live-monotone")
-			_, _ = sa, sf // read for the race detector only: the two reads are not atomic with the height reads above
 			obsMu.Lock()
 			if ha < lastA || hf < lastF {
 				obsViol = append(obsViol, fmt.Sprintf("a chain height went down while running (agg %d->%d, full %d->%d)", lastA, ha, lastF, hf))
